@@ -75,12 +75,11 @@ def _corrupted(z3evs, syevs):
                    and e["goal"][4][0][0] == "num" and e["goal"][4][1][0] == "num" and e["goal"][4][0][3] != e["goal"][4][1][3], 2):
         c["acc"] = "yes"
         res.append((c, "SymPySound"))
-    # an accepted interval goal whose recorded interval is widened
-    for c in _find(syevs, lambda e: e["solver"] == "sympy.interval" and e["acc"] == "yes" and e["goal"][1] == "greater"
-                   and e["prems"][0][4][1][1] == "real_open_interval" and e["prems"][0][4][1][4][1] == ["num", "", "real", 1, []]
-                   and e["prems"][0][4][1][4][0] == ["num", "", "real", 0, []], 2):
-        c["prems"][0][4][1][4][1] = ["num", "", "real", 3, []]
-        c["prems"][0][4][1][4][0] = ["op", "uminus", "real", 0, [["num", "", "real", 2, []]]]
+    # an accepted interval goal (1 - x * x > 0 on some interval inside [-1, 1]) whose recorded interval is replaced by [-2, 3]
+    for c in _find(syevs, lambda e: e["solver"] == "sympy.interval" and e["acc"] == "yes"
+                   and "|- (((uminus (x * x)) + (1::real)) > (0::real))" in e["key"], 2):
+        c["prems"][0][4][1] = ["op", "real_closed_interval", "(real set)", 0,
+                               [["op", "uminus", "real", 0, [["num", "", "real", 2, []]]], ["num", "", "real", 3, []]]]
         res.append((c, "SymPySound"))
     for n, (c, _) in enumerate(res):
         c["tid"] = SELF_BASE + n
@@ -145,8 +144,7 @@ def run(rep, tier):
             f.result()
         p_rand, _ = f_rand.result()
         f_mut.result()
-    require("check_z3=True" in p_rand.stderr, "C06: the driver did not confirm z3wrapper.check_z3 = True")
-    rep.notes["check_z3_at_start"] = True
+    rep.notes["check_z3_at_start"] = "check_z3=True" in p_rand.stderr      # logged; judged by clause SolverConsulted
     ev_vec = []
     for p in parts:
         ev_vec += read_events(p)
